@@ -178,6 +178,8 @@ class Builder:
             return un.CS(c)
         if kind == 'dc':
             return self.U.DC(c[0], c[1], params.get('m', 'meta'))
+        if kind == 'dc2':
+            return self.U.DC2(params.get('m', 'meta2'), c[0], b=c[1])
         if kind == 'partial':
             nargs = params.get('nargs', len(c))
             kw = params.get('kw', [])
@@ -272,8 +274,8 @@ def core_trees(max_nodes, **kw):
 # cell stratum: every kind x kind nesting over the full alphabet
 
 # (kind, params, arity) canonical forms.  arity None = flexible (use 3 as parent, 2 as child)
-FIXED_ARITY = {'nts': 2, 'ss2': 2, 'ss4': 4, 'ss9': 9, 'dc': 2, 'none': 0}
-SEQ_KINDS = ['tuple', 'list', 'nt', 'nts', 'ss2', 'ss4', 'ss9', 'cg', 'cn', 'cs', 'dc', 'partial']
+FIXED_ARITY = {'nts': 2, 'ss2': 2, 'ss4': 4, 'ss9': 9, 'dc': 2, 'dc2': 2, 'none': 0}
+SEQ_KINDS = ['tuple', 'list', 'nt', 'nts', 'ss2', 'ss4', 'ss9', 'cg', 'cn', 'cs', 'dc', 'dc2', 'partial']
 DICT_KINDS = ['dict', 'odict', 'ddict']
 LEAFLIKE_KINDS = ['listsub', 'tuplesub', 'dictsub', 'odictsub', 'ddictsub', 'dequesub']
 ALL_NODE_KINDS = [*SEQ_KINDS, *DICT_KINDS, 'deque', 'cd', 'none']
@@ -586,8 +588,8 @@ def local_edits(d, path):  # noqa: C901
         keys = _keys_of(node)
         if keys:
             put('cd:key-rename', ['cd', dict(params, keys=[*keys[:-1], 'zz']), ch])
-    if kind == 'dc':
-        put('dc:meta-change', ['dc', {'m': 'changed'}, ch])
+    if kind in ('dc', 'dc2'):
+        put('dc:meta-change', [kind, {'m': 'changed'}, ch])
     if kind == 'none':
         put('none->tuple0', ['tuple', None, []])
     put('node->leaf', 'L')
